@@ -22,6 +22,9 @@ func checkC13(c *Ctx) {
 	c.Rule("C13.4", "unchanged, in order: the stored bytes are the callback's message, one append per delivered channel message", 1)
 	c.Rule("C13.5", "close and add: the file-level stop function stops listening, closes the track and adds it to the file", 1)
 
+	c.Rule("C13.7", "the recorded track is written as a valid file: per-event encoder table and running-status protocol of the writer (= C01.1, C01.2), deltas stored unchanged by Track.Add (= C01.7)", 10)
+	c.include(checkC01, map[string]string{"C01.1": "C13.7", "C01.2": "C13.7", "C01.7": "C13.7"})
+
 	trackT := p.namedType("smf", "Track")
 	mtT := p.namedType("smf", "MetricTicks")
 	smfT := p.namedType("smf", "SMF")
